@@ -45,7 +45,8 @@ def encode(g):
         for k, n in body:
             out += [str(k), hexs(n)]
         # shape 8 (the action keeps the slice X itself) has the semantics of shape 1 in the model, where attributes are values
-        out += [str({8: 1}.get(act, act)), str(aid)]
+        # shape 9 (`$010`, a decimal index written with a leading zero) is shape 7 (`$10`) in the model
+        out += [str({8: 1, 9: 7}.get(act, act)), str(aid)]
     return " ".join(out)
 
 
@@ -160,6 +161,8 @@ def action_text(act, aid, n):
         return " << vh.Mk($Context, %d, %s) >>" % (aid, L)
     if act == 7:
         return " << vh.Sel(C, %d, $10) >>" % aid
+    if act == 9:
+        return " << vh.Sel(C, %d, $010) >>" % aid
     if act == 8:
         # the attribute slice itself is retained (no copy): it must still hold the body's attributes when the result is read
         return " << vh.MkX(C, %d, X) >>" % aid
@@ -348,7 +351,7 @@ def rand_syn(rng, terms, nnt=None, max_alts=3, max_len=3, p_empty=0.2, p_error=0
         # a long alternative whose action uses a two-digit index ($10)
         aid += 1
         body = [rng.choice(terms) for _ in range(rng.randint(11, 13))]
-        syn.append((nts[-1], body, 7, aid))
+        syn.append((nts[-1], body, rng.choice([7, 7, 9]), aid))
     if productive and rng.random() < 0.25 and terms:
         # a nullable, directly left-recursive list that FOLLOWS another symbol: `S0 : N x L ; L : L y | empty`
         x, y = rng.choice(terms), rng.choice(terms)
